@@ -513,7 +513,7 @@ theorem dem_nonneg_len {r : Res} {n : Nat} (hl : r.length = n) (h : ∀ i, i < n
   · rw [dem_ge_length r i (by omega)]; omega
 
 /-- **the annealing step preserves the state invariant**, for every proposal -/
-theorem saStep_inv {vr : VR} {fixed : List Vtx} {p0 : Placement} {m0 : Machine} {tot : Chip → Nat → Int}
+theorem SAInv.step {vr : VR} {fixed : List Vtx} {p0 : Placement} {m0 : Machine} {tot : Chip → Nat → Int}
     {s s' : SA} {src : Vtx} {dst : Chip} {accept f : Bool}
     (hn : (keys vr).Nodup) (I : SAInv vr fixed p0 m0 tot s)
     (h : saStep vr fixed s src dst accept = .ok (s', f)) : SAInv vr fixed p0 m0 tot s' := by
@@ -629,7 +629,7 @@ theorem saStep_inv {vr : VR} {fixed : List Vtx} {p0 : Placement} {m0 : Machine} 
     · intro v hv; rw [hpeq v]; exact I.fixedUnmoved v hv
 
 /-- lifted to every proposal list -/
-theorem saRun_inv {vr : VR} {fixed : List Vtx} {p0 : Placement} {m0 : Machine} {tot : Chip → Nat → Int}
+theorem SAInv.run {vr : VR} {fixed : List Vtx} {p0 : Placement} {m0 : Machine} {tot : Chip → Nat → Int}
     (hn : (keys vr).Nodup) :
     ∀ (steps : List Step) (s : SA) (fl : List Bool) (s' : SA) (fl' : List Bool),
       SAInv vr fixed p0 m0 tot s → saRun vr fixed steps s fl = .ok (s', fl') →
@@ -647,6 +647,118 @@ theorem saRun_inv {vr : VR} {fixed : List Vtx} {p0 : Placement} {m0 : Machine} {
     · simp at h
     · rename_i r hr
       obtain ⟨s1, f⟩ := r
-      exact ih _ _ _ _ (saStep_inv hn I hr) h
+      exact ih _ _ _ _ (SAInv.step hn I hr) h
+
+/-! ### `PythonKernel.__init__`: the location -> vertices lookup -/
+
+/-- the vertices the placement puts on chip `c`, in insertion order -/
+def onChip (p : Placement) (c : Chip) : List Vtx := (p.filter fun vc => decide (vc.2 = c)).map Prod.fst
+
+theorem mkL2v_fold : ∀ (q : Placement) (l l' : List (Chip × List Vtx)),
+    q.foldlM (fun l (vc : Vtx × Chip) =>
+      match aget l vc.2 with
+      | none => (.error .keyError : M _)
+      | some vs => .ok (aset l vc.2 (vs ++ [vc.1]))) l = .ok l' →
+    ∀ c, aget l' c = (aget l c).map (· ++ onChip q c) := by
+  intro q
+  induction q with
+  | nil =>
+    intro l l' h c
+    simp only [List.foldlM_nil, pure, Except.pure] at h
+    injection h with h; subst h
+    cases aget l c <;> simp [onChip]
+  | cons hd t ih =>
+    obtain ⟨v, c0⟩ := hd
+    intro l l' h c
+    simp only [List.foldlM_cons, bind, Except.bind] at h
+    split at h
+    · simp at h
+    · rename_i l1 h1
+      split at h1
+      · simp at h1
+      · rename_i vs hvs
+        injection h1 with h1; subst h1
+        rw [ih _ _ h c, aget_aset]
+        by_cases e : c0 = c
+        · subst e
+          simp only [if_pos rfl, hvs, Option.map_some, onChip, List.filter_cons, decide_true, if_true,
+            List.map_cons, List.append_assoc, List.singleton_append]
+        · simp only [if_neg e, onChip, List.filter_cons, e, decide_false, Bool.false_eq_true, if_false]
+
+theorem aget_map_nil (l : List Chip) (c : Chip) :
+    aget (l.map fun c => (c, ([] : List Vtx))) c = if c ∈ l then some [] else none := by
+  induction l with
+  | nil => simp [aget]
+  | cons x t ih =>
+    simp only [List.map_cons, aget, ih, List.mem_cons]
+    by_cases e : x = c
+    · subst e; simp
+    · have : ¬ c = x := fun h => e h.symm
+      simp [e, this]
+
+theorem mem_iff_aget {p : Placement} (hn : (keys p).Nodup) (v : Vtx) (c : Chip) :
+    (v, c) ∈ p ↔ aget p v = some c := by
+  constructor
+  · intro h
+    induction p with
+    | nil => simp at h
+    | cons hd t ih =>
+      obtain ⟨u, cu⟩ := hd
+      simp only [keys, List.map_cons, List.nodup_cons] at hn
+      simp only [List.mem_cons] at h
+      rcases h with h | h
+      · injection h with h1 h2; subst h1; subst h2; simp [aget]
+      · have hne : u ≠ v := by
+          intro e; subst e
+          exact hn.1 (List.mem_map.2 ⟨(u, c), h, rfl⟩)
+        simp only [aget, hne, if_false]
+        exact ih hn.2 h
+  · exact aget_some_mem
+
+theorem mem_onChip {p : Placement} (hn : (keys p).Nodup) (v : Vtx) (c : Chip) :
+    v ∈ onChip p c ↔ aget p v = some c := by
+  rw [← mem_iff_aget hn]
+  simp only [onChip, List.mem_map, List.mem_filter, decide_eq_true_eq]
+  constructor
+  · rintro ⟨⟨u, cu⟩, ⟨h1, h2⟩, h3⟩
+    simp at h2 h3; subst h2; subst h3; exact h1
+  · intro h; exact ⟨(v, c), ⟨h, rfl⟩, rfl⟩
+
+theorem nodup_onChip {p : Placement} (hn : (keys p).Nodup) (c : Chip) : (onChip p c).Nodup := by
+  have : (onChip p c).Sublist (keys p) := by
+    unfold onChip keys
+    exact List.Sublist.map _ List.filter_sublist
+  exact List.Nodup.sublist this hn
+
+/-- the state the kernel starts from satisfies the invariant -/
+theorem SAInv.start {vr : VR} {m m2 : Machine} {rsv : Chip → Nat → Int} {p0 : Placement} (fixed : List Vtx)
+    {l2v : List (Chip × List Vtx)} (I : Inv vr m rsv m2 p0) (h : mkL2v m2 p0 = .ok l2v) :
+    SAInv vr fixed p0 m2 (fun c i => dem (cap m2 c) i + load vr p0 c i) { m := m2, p := p0, l2v := l2v } := by
+  have hl := mkL2v_fold p0 _ _ h
+  refine ⟨⟨rfl, rfl, rfl, fun _ _ => rfl, fun c hc i hi => by show dem (cap m2 c) i = _ - load vr p0 c i; omega, ?_,
+    I.pnodup, fun _ => Iff.rfl, ?_⟩, ?_, fun _ _ => rfl⟩
+  · intro v c hv; rw [I.ok_eq]; exact I.pok v c hv
+  · intro c hc
+    refine ⟨onChip p0 c, ?_, nodup_onChip I.pnodup c, fun v => mem_onChip I.pnodup v c⟩
+    show aget l2v c = _
+    rw [hl c, aget_map_nil, if_pos ((mem_chips_iff m2 c).2 hc)]
+    simp
+  · intro c hc i; exact I.nonneg c (by rw [← I.ok_eq]; exact hc) i
+
+/-- at any later state the resource invariant of the placers holds again -/
+theorem SAInv.toInv {vr : VR} {m m2 : Machine} {rsv : Chip → Nat → Int} {p0 : Placement} {fixed : List Vtx}
+    {s : SA} (I : Inv vr m rsv m2 p0)
+    (J : SAInv vr fixed p0 m2 (fun c i => dem (cap m2 c) i + load vr p0 c i) s) :
+    Inv vr m rsv s.m s.p := by
+  have hok : ∀ c, m.ok c = true → m2.ok c = true := fun c hc => by rw [I.ok_eq]; exact hc
+  refine ⟨J.w.trans I.w, J.h.trans I.h, J.dead.trans I.dead, ?_, ?_, ?_, ?_, ?_, J.pnodup⟩
+  · intro c hc; rw [J.len c (hok c hc), I.len c hc]
+  · intro c hc i; exact J.nonneg c (hok c hc) i
+  · intro c hc i hi
+    have := J.freeEq c (hok c hc) i (by rw [I.len c hc]; exact hi)
+    have := I.bound c hc i hi
+    omega
+  · intro v c hv; rw [← I.ok_eq]; exact J.pok v c hv
+  · intro v hv; exact I.pvr v ((J.pkeys v).1 hv)
 
 end Rig.C02
